@@ -1207,6 +1207,33 @@ impl<'a, 'b, 'ast> Visit<'ast> for Collector<'a, 'b> {
                 self.loop_anchor(&w.body);
                 visit::visit_expr(self, e);
             }
+            Expr::ForLoop(w) if rw.for_range && matches!(&*w.pat, syn::Pat::Ident(_)) && matches!(&*w.expr, Expr::MethodCall(m) if m.method == "rev" && m.args.is_empty() && { let mut r = &*m.receiver; while let Expr::Paren(p) = r { r = &p.expr; } matches!(r, Expr::Range(rg) if rg.start.is_some() && rg.end.is_some() && matches!(rg.limits, syn::RangeLimits::HalfOpen(_))) }) => {
+                // R14r (option for_range=1): `for x in (lo..hi).rev() { B }` -> the downward `while`:
+                //   `{ let __lo = lo; let mut __it = hi; while __it > __lo { __it -= 1; let x = __it; B } }`   (empty when hi <= lo, as the range is)
+                if let Expr::MethodCall(m) = &*w.expr {
+                    let mut r = &*m.receiver; while let Expr::Paren(p) = r { r = &p.expr; }
+                    if let Expr::Range(rg) = r {
+                        self.record_header(e, &w.body);
+                        let idx = rw.loop_idx.get();
+                        rw.loop_idx.set(idx + 1);
+                        let var = match &*w.pat { syn::Pat::Ident(pi) => pi.ident.to_string(), _ => format!("__x{idx}") };
+                        let lo = rw.render_expr(rg.start.as_ref().unwrap());
+                        let hi = rw.render_expr(rg.end.as_ref().unwrap());
+                        let inv = rw.section(&format!("loop {idx}")).map(|t| mark(t)).unwrap_or_default();
+                        let mut c = Collector { rw, edits: vec![] };
+                        for st in &w.body.stmts { c.visit_stmt(st); }
+                        let br = w.body.span().byte_range();
+                        let inner = apply_edits(rw.src, (br.start + 1)..(br.end - 1), c.edits);
+                        let begin = rw.section(&format!("loop {idx} begin")).map(|t| format!("proof {{ //@p\n{}\n}} //@p\n", mark(t))).unwrap_or_default();
+                        let begin = format!("{}{}", rw.section(&format!("loop {idx} begin-raw")).map(|t| format!("{}\n", mark(t))).unwrap_or_default(), begin);
+                        let inner = format!("{}{}", inner, rw.section(&format!("loop {idx} end")).map(|t| format!("\nproof {{ //@p\n{}\n}} //@p\n", mark(t))).unwrap_or_default());
+                        let text = format!("(); {{ let __lo{idx} = {lo}; let mut __it{idx} = {hi}; if __it{idx} < __lo{idx} {{ __it{idx} = __lo{idx}; }}\nwhile __it{idx} > __lo{idx}\n{inv}\ndecreases __it{idx} - __lo{idx}, //@p\n{{ __it{idx} -= 1; let {var} = __it{idx};\n{begin}{inner} }} }}");
+                        rw.count("R14");
+                        let sp = e.span().byte_range();
+                        self.edits.push((sp.start, sp.end, text));
+                    }
+                }
+            }
             Expr::ForLoop(w) if rw.for_range && matches!(&*w.expr, Expr::Range(r) if r.start.is_some() && r.end.is_some()) && matches!(&*w.pat, syn::Pat::Ident(_) | syn::Pat::Wild(_)) => {
                 // R14 (option for_range=1): `for x in lo..hi { B }` / `for x in lo..=hi { B }` over an integer range ->
                 //   the `while` desugaring (rustc's, specialised to integer ranges; `continue` then needs no support in for-loops)
